@@ -53,7 +53,7 @@ fn vault_part(quick: u64, thorough: u64) -> PlanPart {
 }
 
 pub fn all_ids() -> Vec<&'static str> {
-    vec!["C01", "C02", "C05", "C06", "C07", "C14", "C15"]
+    vec!["C01", "C02", "C03", "C05", "C06", "C07", "C14", "C15"]
 }
 
 pub fn plan_for(id: &str) -> Option<Plan> {
@@ -74,6 +74,7 @@ pub fn plan_for(id: &str) -> Option<Plan> {
             p.real.extend(VAULT_REAL);
             Some(p)
         }
+        "C03" => Some(pool2_plan("C03", "seeded swarm runs of POOL2 with a stableswap pair: amp in {1,2,7,10,50,85,100,400,1000,1e6}, decimals in {(6,6),(6,8),(8,6),(6,18),(18,6),(4,5)}, reserves >= one whole token and <= 2^100 base units; every Simulation / swap is compared with an independent bisection solution of the invariant on decimal-normalised reserves, every deposit/withdrawal with the exact invariant per LP; distinct = unseen (reserves, LP supply, pending fees, LP balances) after a successful step", 4000, 250_000, vec!["stable_swap_quote_checked", "stable_deposit_withdraw_completed"])),
         "C05" => Some(Plan {
             property: "C05",
             level: "exploration",
